@@ -26,6 +26,8 @@ impl AggregateTargetActor {
             futures::select! {
                 _ = self.helper.termination_events.next().fuse() => break,
                 message = self.helper.target_actor_input_receiver.next().fuse() => {
+                    #[cfg(zinoma_verif)]
+                    crate::zinoma_verif::note_actor_message(&self.helper.target_id, message.as_ref().unwrap());
                     match message.unwrap() {
                         ActorInputMessage::Ok { kind, target_id, actual } => {
                             let removed = self.helper.unavailable_dependencies.get_mut(&kind).unwrap().remove(&target_id);
@@ -81,5 +83,7 @@ impl AggregateTargetActor {
                 }
             }
         }
+        #[cfg(zinoma_verif)]
+        crate::zinoma_verif::note_actor_event(&self.helper.target_id, "T");
     }
 }
